@@ -241,7 +241,7 @@ func (s *SignedAccumulator) UnmarshalVerify(pk *gabikeys.PublicKey) (*Accumulato
 	if err := signed.UnmarshalVerify(pk.ECDSA, s.Data, msg); err != nil {
 		return nil, err
 	}
-	if msg.Nu == nil {
+	if msg.Nu == nil || msg.Nu.Sign() <= 0 {
 		return nil, errors.New("accumulator has no value")
 	}
 	simhook.Yield("SignedAccumulator.UnmarshalVerify:before-store")
